@@ -4,6 +4,7 @@ from __future__ import annotations
 import os
 import re
 import subprocess
+import sys
 import tempfile
 import time
 
@@ -248,6 +249,344 @@ def ground_refute(text: str, scale: int = 1) -> str | None:
     return None
 
 
+def _py_of(v):
+    """a model value as a Python object: ints, bools, sequences of ints (tuple) and sequences of those"""
+    v = z3.simplify(v)
+    if z3.is_int_value(v):
+        return v.as_long()
+    if z3.is_true(v):
+        return True
+    if z3.is_false(v):
+        return False
+    if z3.is_seq(v):
+        if z3.is_app(v) and v.decl().kind() == z3.Z3_OP_SEQ_EMPTY:
+            return ()
+        if z3.is_app(v) and v.decl().kind() == z3.Z3_OP_SEQ_UNIT:
+            x = _py_of(v.arg(0))
+            return None if x is None else (x,)
+        if z3.is_app(v) and v.decl().kind() == z3.Z3_OP_SEQ_CONCAT:
+            out = ()
+            for c in v.children():
+                x = _py_of(c)
+                if x is None:
+                    return None
+                out += x
+            return out
+        if z3.is_string_value(v):
+            return tuple(ord(ch) for ch in v.as_string())
+    return None
+
+
+def _true_value(name: str, a: list):
+    """the definitional meaning of the axiomatised specification functions on concrete arguments (None = unconstrained there)"""
+    if name == "occ":
+        s_, p_, j = a
+        return 0 <= j and j + len(p_) <= len(s_) and s_[j:j + len(p_)] == p_
+    if name == "pm":
+        s_, p_, j = a
+        if not (0 <= j <= len(s_)):
+            return False
+        m = min(len(p_), len(s_) - j)
+        return s_[j:j + m] == p_[:m]
+    if name == "first":
+        s_, p_ = a
+        for j in range(0, len(s_) - len(p_) + 1):
+            if s_[j:j + len(p_)] == p_:
+                return j
+        return -1
+    if name == "flat":
+        out = ()
+        for x in a[0]:
+            out += x
+        return out
+    if name == "tl":
+        return a[0][1:] if len(a[0]) >= 1 else None
+    if name in ("rk", "Resync"):
+        s_, c, p_ = a
+        if not (0 <= c <= len(s_)):
+            return None
+        pmv = lambda j: s_[j:j + min(len(p_), len(s_) - j)] == p_[:min(len(p_), len(s_) - j)]
+        r = next(j for j in range(c, len(s_) + 1) if j == len(s_) or pmv(j))
+        if name == "rk":
+            return r
+        occ_c = c + len(p_) <= len(s_) and s_[c:c + len(p_)] == p_
+        return s_[c + len(p_):] if occ_c else s_[r:]
+    return None
+
+
+def _z3_of(x, sort):
+    if isinstance(x, bool):
+        return z3.BoolVal(x)
+    if isinstance(x, int):
+        return z3.IntVal(x)
+    if sort == smt.Bytes:
+        return smt.bytes_lit(bytes(x)) if all(0 <= b < 256 for b in x) else (z3.Concat(*[z3.Unit(z3.IntVal(b)) for b in x]) if len(x) > 1 else (z3.Unit(z3.IntVal(x[0])) if x else z3.Empty(smt.Bytes)))
+    if sort == smt.BytesSeq:
+        parts = [z3.Unit(_z3_of(b, smt.Bytes)) for b in x]
+        return z3.Empty(smt.BytesSeq) if not parts else (parts[0] if len(parts) == 1 else z3.Concat(*parts))
+    raise ValueError(sort)
+
+
+def _expand_quantifiers(f, lo: int, hi: int, memo: dict):
+    """finite-domain reading of integer quantifiers: ForAll j. B  ->  And(B[j:=k] for lo <= k <= hi) (Exists: Or)"""
+    k_ = f.get_id()
+    if k_ in memo:
+        return memo[k_]
+    if z3.is_quantifier(f):
+        if any(f.var_sort(i) != smt.I for i in range(f.num_vars())) or f.num_vars() > 2:
+            raise ValueError("quantifier over a non-integer sort")
+        vs = [z3.Int(f"bnd!{f.get_id()}!{i}") for i in range(f.num_vars())]
+        body = z3.substitute_vars(f.body(), *reversed(vs))
+        insts = []
+        import itertools as _it
+        for ks in _it.product(range(lo, hi + 1), repeat=len(vs)):
+            inst = z3.substitute(body, *[(v, z3.IntVal(k)) for v, k in zip(vs, ks)])
+            insts.append(_expand_quantifiers(inst, lo, hi, {}))
+        r = z3.And(*insts) if f.is_forall() else z3.Or(*insts)
+    elif z3.is_app(f) and f.num_args():
+        ch = [_expand_quantifiers(c, lo, hi, memo) for c in f.children()]
+        r = f.decl()(*ch)
+    else:
+        r = f
+    memo[k_] = r
+    return r
+
+
+def bounded_refute(text: str, scale: int = 1, bound: int = 6) -> str | None:
+    """Bounded instantiation of a verification condition that contains quantified hypotheses (DESIGN 2.8): every sequence is at
+    most `bound` long, integer quantifiers range over [-2, bound + 2], the lemma axioms are dropped and replaced by the CEGAR
+    loop over the definitional meaning of the specification functions.  The model found is then VALIDATED against the original
+    (unbounded) quantified formulas over a window that covers every index at which their bodies can be false for the model's
+    sequences ([-3, longest sequence + 3]); only a validated model is reported."""
+    try:
+        fs = list(z3.parse_smt2_string(text))
+    except z3.Z3Exception:
+        return None
+    ground0 = [f for f in fs if not _has_quantifier(f)]
+    try:
+        ax = {a.sexpr() for a in smt.axioms_for(ground0 + [f for f in fs if _has_quantifier(f)])}
+    except Exception:  # noqa: BLE001
+        ax = set()
+    forms = [f for f in fs if not (z3.is_quantifier(f) and f.sexpr() in ax)]
+    forms = [f for f in forms if not (z3.is_quantifier(f) and f.num_patterns() > 0 and not _mentions_free_const(f))]  # closed lemma axioms
+    dbg = os.environ.get("PYVC_DEBUG_BOUNDED")
+    try:
+        inst = [_expand_quantifiers(f, -2, bound + 2, {}) for f in forms]
+    except (ValueError, z3.Z3Exception) as ex:
+        if dbg:
+            print("bounded: expansion failed", ex, file=sys.stderr)
+        return None
+    consts: dict = {}
+    apps: dict = {}
+    stack, seen = list(inst), set()
+    while stack:
+        f = stack.pop()
+        if f.get_id() in seen:
+            continue
+        seen.add(f.get_id())
+        if z3.is_app(f):
+            if f.num_args() == 0 and f.decl().kind() == z3.Z3_OP_UNINTERPRETED and z3.is_seq(f):
+                consts[f.get_id()] = f
+            if f.decl().name() in AXIOMATISED and f.decl().kind() == z3.Z3_OP_UNINTERPRETED:
+                apps[f.get_id()] = f
+            stack.extend(f.children())
+    s = z3.Solver()
+    s.set("rlimit", Z3_RLIMIT * scale)
+    s.set("timeout", 30000 * scale)
+    s.add(*inst)
+    for c in consts.values():
+        s.add(z3.Length(c) <= bound)
+    # occ / pm: ground instances of their definitions (quantifier-free), so that the loop below only has to settle the others
+    for app in apps.values():
+        nm = app.decl().name()
+        if nm in ("occ", "pm"):
+            s_, p_, j_ = app.children()
+            if nm == "occ":
+                s.add(app == z3.And(j_ >= 0, j_ + z3.Length(p_) <= z3.Length(s_), z3.SubSeq(s_, j_, z3.Length(p_)) == p_))
+            else:
+                mm = z3.If(z3.Length(p_) <= z3.Length(s_) - j_, z3.Length(p_), z3.Length(s_) - j_)
+                s.add(app == z3.And(j_ >= 0, j_ <= z3.Length(s_), z3.SubSeq(s_, j_, mm) == z3.SubSeq(p_, 0, mm)))
+        elif nm == "first":
+            s_, p_ = app.children()
+            od = [z3.And(k + z3.Length(p_) <= z3.Length(s_), z3.SubSeq(s_, k, z3.Length(p_)) == p_) for k in range(0, bound + 1)]
+            for k in range(0, bound + 1):
+                s.add(z3.Implies(z3.And(od[k], *[z3.Not(x) for x in od[:k]]), app == k))
+            s.add(z3.Implies(z3.And(*[z3.Not(x) for x in od]), app == -1))
+        elif nm in ("rk", "Resync"):
+            s_, c_, p_ = app.children()
+            LS, LP = z3.Length(s_), z3.Length(p_)
+
+            def pmdef(k):
+                mm = z3.If(LP <= LS - k, LP, LS - k)
+                return z3.SubSeq(s_, k, mm) == z3.SubSeq(p_, 0, mm)
+
+            rkv = z3.IntVal(bound)
+            for k in range(bound, -1, -1):
+                rkv = z3.If(z3.And(c_ <= k, k <= LS, z3.Or(LS == k, pmdef(k))), z3.IntVal(k), rkv)
+            inrange = z3.And(c_ >= 0, c_ <= LS)
+            if nm == "rk":
+                s.add(z3.Implies(inrange, app == rkv))
+            else:
+                occ_c = z3.And(c_ + LP <= LS, z3.SubSeq(s_, c_, LP) == p_)
+                s.add(z3.Implies(inrange, app == z3.If(LP == 0, z3.SubSeq(s_, c_, LS - c_),
+                                                       z3.If(occ_c, z3.SubSeq(s_, c_ + LP, LS - c_ - LP), z3.SubSeq(s_, rkv, LS - rkv)))))
+    m = None
+    for _round in range(40):
+        r_ = s.check()
+        if r_ != z3.sat:
+            if dbg:
+                print("bounded: round", _round, "solver says", r_, file=sys.stderr)
+            return None
+        m = s.model()
+        changed = False
+        for app in apps.values():
+            argv = [m.eval(c, model_completion=True) for c in app.children()]
+            pa = [_py_of(v) for v in argv]
+            if any(x is None for x in pa):
+                if dbg:
+                    print("bounded: cannot read model value", argv, file=sys.stderr)
+                return None
+            tv = _true_value(app.decl().name(), pa)
+            if tv is None:
+                continue
+            if _py_of(m.eval(app, model_completion=True)) != tv:
+                if dbg:
+                    print("bounded: round", _round, app.decl().name(), pa, "model says", _py_of(m.eval(app, model_completion=True)), "definition says", tv, file=sys.stderr)
+                try:
+                    s.add(z3.Implies(z3.And(*[c == v for c, v in zip(app.children(), argv)]), app == _z3_of(tv, app.sort())))
+                except ValueError:
+                    return None
+                changed = True
+        if not changed:
+            break
+    else:
+        if dbg:
+            print("bounded: CEGAR did not converge", file=sys.stderr)
+        return None
+    # validation of the ORIGINAL formulas (quantifiers over the wide window, specification functions by their definitions)
+    longest = max([len(_py_of(m.eval(c, model_completion=True)) or ()) for c in consts.values()] + [0])
+    try:
+        wide = [_expand_quantifiers(f, -3, longest + 3, {}) for f in forms]
+    except (ValueError, z3.Z3Exception):
+        return None
+    for f in wide:
+        if not _holds_definitionally(f, m):
+            if dbg:
+                print("bounded: validation failed on", str(f)[:300], file=sys.stderr)
+            return None
+    return (f"z3 model of the bounded instantiation (sequences <= {bound}), validated against the unbounded formulas with the "
+            "specification functions evaluated by their definitions: " + str(m)[:1500])
+
+
+def _mentions_free_const(f) -> bool:
+    stack, seen = [f.body()], set()
+    while stack:
+        x = stack.pop()
+        if x.get_id() in seen:
+            continue
+        seen.add(x.get_id())
+        if z3.is_app(x):
+            if x.num_args() == 0 and x.decl().kind() == z3.Z3_OP_UNINTERPRETED:
+                return True
+            stack.extend(x.children())
+    return False
+
+
+def _holds_definitionally(f, m) -> bool:
+    """truth of a quantifier-free formula under model m, with every application of an axiomatised function replaced
+    (innermost first) by its definitional value"""
+    memo: dict = {}
+
+    def rw(e):
+        k = e.get_id()
+        if k in memo:
+            return memo[k]
+        if z3.is_app(e) and e.num_args():
+            ch = [rw(c) for c in e.children()]
+            if e.decl().name() in AXIOMATISED and e.decl().kind() == z3.Z3_OP_UNINTERPRETED:
+                pa = [_py_of(m.eval(c, model_completion=True)) for c in ch]
+                tv = None if any(x is None for x in pa) else _true_value(e.decl().name(), pa)
+                if tv is None:
+                    r = e.decl()(*ch)
+                else:
+                    r = _z3_of(tv, e.sort())
+            else:
+                r = e.decl()(*ch)
+        else:
+            r = e
+        memo[k] = r
+        return r
+
+    try:
+        v = m.eval(rw(f), model_completion=True)
+    except (z3.Z3Exception, ValueError):
+        return False
+    return z3.is_true(v)
+
+
+def cegar_refute(text: str, scale: int = 1) -> str | None:
+    """Counter-model search against the DEFINITIONAL meaning of the axiomatised functions (occ, pm, first, flat, tl, rk, Resync):
+    solve the quantifier-free part, compare every application of such a function with its true value under the model, add
+    the violated ground instances, repeat.  A model in which all applications agree with the definitions is a genuine
+    counter-model of the verification condition (the triggered axioms are consequences of the definitions).  Only used when
+    every quantified formula of the query is one of the lemma axioms; gives up (None) otherwise or after a few rounds."""
+    try:
+        fs = list(z3.parse_smt2_string(text))
+    except z3.Z3Exception:
+        return None
+    ground = [f for f in fs if not _has_quantifier(f)]
+    quantified = [f for f in fs if _has_quantifier(f)]
+    try:
+        ax = {a.sexpr() for a in smt.axioms_for(ground)}
+    except Exception:  # noqa: BLE001
+        return None
+    if any(q.sexpr() not in ax for q in quantified):
+        return None  # a quantified hypothesis (loop invariant, forall in a contract) would be dropped: not sound for a refutation
+    apps: dict = {}
+    stack, seen = list(ground), set()
+    while stack:
+        f = stack.pop()
+        if f.get_id() in seen:
+            continue
+        seen.add(f.get_id())
+        if z3.is_app(f):
+            if f.decl().name() in AXIOMATISED and f.decl().kind() == z3.Z3_OP_UNINTERPRETED:
+                apps[f.get_id()] = f
+            stack.extend(f.children())
+    if not apps:
+        return None
+    s = z3.Solver()
+    s.set("rlimit", Z3_RLIMIT * scale)
+    s.set("timeout", 20000 * scale)
+    s.add(*ground)
+    for _round in range(12):
+        if s.check() != z3.sat:
+            return None
+        m = s.model()
+        changed = False
+        for app in apps.values():
+            argv = [m.eval(c, model_completion=True) for c in app.children()]
+            pa = [_py_of(v) for v in argv]
+            if any(x is None for x in pa):
+                return None
+            tv = _true_value(app.decl().name(), pa)
+            if tv is None:
+                continue
+            cur = _py_of(m.eval(app, model_completion=True))
+            if cur != tv:
+                try:
+                    lit = _z3_of(tv, app.sort())
+                except ValueError:
+                    return None
+                s.add(z3.Implies(z3.And(*[c == v for c, v in zip(app.children(), argv)]), app == lit))
+                changed = True
+        if not changed:
+            if not model_validates(s):
+                return None
+            return "z3 model (agrees with the definitions of the specification functions on every application in the query): " + str(m)[:1500]
+    return None
+
+
 def finish_pending_slow(task: tuple[str, str, str]) -> dict:
     """Third pass, only for obligations both solvers gave up on within the normal budget (a loaded machine makes the
     wall-clock limits bite): same queries, budgets x8, few processes.  Still `unknown` afterwards = undecided, never a violation."""
@@ -295,7 +634,7 @@ def finish_pending(task: tuple[str, str, str], scale: int = 1) -> dict:
             except z3.Z3Exception:
                 pass
         return {"id": ident, "status": "refuted", "backend": "", "time_s": dt, "detail": detail + ("\n" + model if model else "")}
-    gm = ground_refute(text, scale)
+    gm = ground_refute(text, scale) or cegar_refute(text, scale) or bounded_refute(text, scale)
     if gm is not None:
         return {"id": ident, "status": "refuted", "backend": "", "time_s": time.time() - t0, "detail": detail + "\n" + gm}
     return {"id": ident, "status": "unknown", "backend": "", "time_s": dt, "detail": detail}
